@@ -296,18 +296,24 @@ def fstring_body(quote: str, raw: bool) -> str:
 MAX_FIELD_NESTING = 3  # a replacement field, one in its format spec, one in that one's spec: as deep as CPython allows
 
 
-def spec_patterns(quote: str) -> str:
+def spec_patterns(quote: str, raw: bool = False) -> str:
     """Literal text of a format spec up to a nested replacement field or the end of the field.
 
-    Braces are never doubled here, and the text cannot run past the quote that closes the string.
+    Braces are never doubled here, and the text cannot run past the quote that closes the string;
+    the braces of a \\N{name} escape belong to the text unless the string is raw.
     """
     q = quote[:1]
+    named = r"\\N\{[^{}]*\}"
+    guard = "" if raw else rf"(?!{named})"  # so that backtracking cannot split the escape
     if not q:
-        body = r"[^{}]*"
+        alts = [guard + r"[^{}]"]
     elif len(quote) == 3:
-        body = rf"(?:[^{{}}{q}]|{q}(?!{q}{q}))*"
+        alts = [guard + rf"[^{{}}{q}]", rf"{q}(?!{q}{q})"]
     else:
-        body = rf"[^{{}}{q}]*"
+        alts = [guard + rf"[^{{}}{q}]"]
+    if not raw:
+        alts.insert(0, named)
+    body = "(?:" + "|".join(alts) + ")*"
     return choice(LBrace=body + r"\{", RBrace=body + r"\}")
 
 
@@ -429,6 +435,7 @@ class EndProg:
     contline: str = ""  # the physical lines the token has consumed before the current one
     start: tuple[int, int] = (0, 0)
     quote: str = ""
+    raw: bool = False  # the literal has an r prefix
 
     def join(self, state: TokenizerState, end: int) -> None:
         self.text += state.line[state.pos : end]
@@ -547,9 +554,10 @@ def next_psuedo_matches(state: TokenizerState) -> TokenInfo | None:
         if "f" in token.lower():
             token_type = Token.FSTRING_START
             # the search for "{" must not run past the closing quote
-            body = fstring_body(quote, raw="r" in token[: -len(quote)].lower())
+            raw = "r" in token[: -len(quote)].lower()
+            body = fstring_body(quote, raw=raw)
             pattern = choice(LBrace=body + r"\{(?!\{)", End=body + quote)
-            state.add_prog(end, end, pattern=pattern, quote=quote, mode=ModeMiddle(state.parenlev))
+            state.add_prog(end, end, pattern=pattern, quote=quote, raw=raw, mode=ModeMiddle(state.parenlev))
         else:
             pattern = endpats[quote]
             state.add_prog(start, end, pattern=pattern, quote=quote)
@@ -573,8 +581,9 @@ def next_psuedo_matches(state: TokenizerState) -> TokenInfo | None:
                 state.pop_mode((state.lnum, end))
             state.parenlev = max(state.parenlev - 1, 0)  # a closer without opener opens nothing: the line still ends
         elif token == ":" and state.in_braces() and state.at_parenlev():
-            quote = next((p.quote for p in reversed(state.end_progs) if p.quote), "")  # a spec may span lines in '''/"""
-            state.add_prog(start + 1, end, mode=ModeInColon(state.parenlev), pattern=spec_patterns(quote), quote=quote)
+            outer = next((p for p in reversed(state.end_progs) if p.quote), None)  # a spec may span lines in '''/"""
+            quote, raw = (outer.quote, outer.raw) if outer else ("", False)
+            state.add_prog(start + 1, end, mode=ModeInColon(state.parenlev), pattern=spec_patterns(quote, raw), quote=quote, raw=raw)
         token_type = Token.OP
     elif match.lastgroup == "End":  # // continuation
         state.continued = True
